@@ -9,6 +9,7 @@ import (
 	"encoding/json"
 	"fmt"
 	"reflect"
+	"runtime"
 	"strings"
 	"sync"
 	"testing"
@@ -33,6 +34,9 @@ type C01Op struct {
 type C01Probe struct {
 	Kind string        `json:"kind"`
 	Pos  refclient.Pos `json:"pos"`
+	// Late (change with >= 2 content changes): the changes arrive as two notifications; the analysis
+	// started by the first is held until that of the second has finished, then runs, then the probe is made
+	Late bool `json:"late,omitempty"`
 }
 
 type C01Case struct {
@@ -46,6 +50,7 @@ var c01URIs = []string{"file:///c01/a.journal", "file:///c01/b.journal", "file:/
 type holdGate struct {
 	mu      sync.Mutex
 	holding bool
+	one     bool // hold only the first analysis that arrives
 	waiters []chan struct{}
 	seen    int
 }
@@ -62,6 +67,9 @@ func (g *holdGate) handler(name string, args ...string) {
 		g.mu.Unlock()
 		return
 	}
+	if g.one {
+		g.holding = false
+	}
 	ch := make(chan struct{})
 	g.waiters = append(g.waiters, ch)
 	g.mu.Unlock()
@@ -70,8 +78,20 @@ func (g *holdGate) handler(name string, args ...string) {
 
 func (g *holdGate) hold() {
 	g.mu.Lock()
-	g.holding = true
+	g.holding, g.one = true, false
 	g.mu.Unlock()
+}
+
+func (g *holdGate) holdOne() {
+	g.mu.Lock()
+	g.holding, g.one = true, true
+	g.mu.Unlock()
+}
+
+func (g *holdGate) nHeld() int {
+	g.mu.Lock()
+	defer g.mu.Unlock()
+	return len(g.waiters)
 }
 
 func (g *holdGate) release() {
@@ -191,7 +211,8 @@ func c01Check(c *C01Case) (ds []ev.Discrepancy, classes []string) {
 	version := 1
 	for si, op := range c.Ops {
 		uri := c01URIs[op.Doc]
-		if op.Probe != nil {
+		late := op.Probe != nil && op.Probe.Late && op.Op == "change" && len(op.Changes) >= 2
+		if op.Probe != nil && !late {
 			gate.hold()
 		}
 		var nerr error
@@ -206,7 +227,26 @@ func c01Check(c *C01Case) (ds []ev.Discrepancy, classes []string) {
 				everOpened[op.Doc] = true
 			case "change":
 				version++
-				nerr = h.Change(uri, version, op.Changes)
+				if late {
+					// two notifications; the analysis of the first is overtaken by that of the second
+					cls["late-superseded-analysis"] = true
+					gate.holdOne()
+					nerr = h.Change(uri, version, op.Changes[:1])
+					for i := 0; gate.nHeld() < 1 && i < 200000; i++ {
+						runtime.Gosched()
+					}
+					version++
+					if nerr == nil {
+						nerr = h.Change(uri, version, op.Changes[1:])
+					}
+					for i := 0; h.BusyBeyond(gate.nHeld()) > 0 && i < 2000000; i++ {
+						runtime.Gosched()
+					}
+					gate.release()
+					_ = h.Quiesce()
+				} else {
+					nerr = h.Change(uri, version, op.Changes)
+				}
 				if b, ok := bufs[op.Doc]; ok {
 					nonASCII := strings.ContainsFunc(b.String(), func(r rune) bool { return r > 127 || r == '\r' })
 					for _, ch := range op.Changes {
@@ -444,6 +484,9 @@ func genC01(t *rapid.T) *C01Case {
 		}
 		if nb, ok := bufs[d]; ok && rapid.IntRange(0, 2).Draw(t, "probe") == 0 {
 			op.Probe = &C01Probe{Kind: rapid.SampledFrom(c01ProbeKinds).Draw(t, "pkind"), Pos: genPos(t, nb, "probe")}
+			if op.Op == "change" && len(op.Changes) >= 2 {
+				op.Probe.Late = rapid.Bool().Draw(t, "late")
+			}
 			if op.Probe.Kind == "inlineCompletion" {
 				// ghost-text templates are offered on a blank line right after a transaction header
 				var cands []int
